@@ -34,9 +34,18 @@ fill    : the model's caches are unbounded maps; one long history per keyed cach
           checkpoints.  Defect class LookupsCap (bounded cached_lookups with a scratch slot).
 scopes  : the ReadCache read through scopes derived by offset, offset_length, ReadCtxt::read_scope and nested
           windows - the key is the absolute position whatever the route.
+Round 3 added one family (and two defect classes for the vacuity runs):
+var     : a synthesized variable font (two axes) whose GSUB has an rvrn feature per script - substituting lookups, a
+          lookup index the lookup list does not have, a Lookup table of a non-existent type, a sub-table that does not
+          parse (skipped) - next to frac / liga / calt / locl and the Arabic forms, whose GPOS value records carry
+          VariationIndex tables and whose GDEF has an item variation store (four regions); ALL histories of shaping
+          calls under four scripts, no tuple / the default instance / other tuples, masks and custom lists, up to the
+          depth (the path is part of the VIEW) - calls that FAIL half-way are part of the histories.  Defect classes
+          FailKeep (working state of a failed call survives) and RegionMemo (a region scalar memoised without the tuple).
 Order of verdicts: checks that depend only on TLC data / harness inputs raise ToolError at once; checks that
 depend on what allsorts answered are deferred until the violations are known and only raised when there is none.
 """
+import concurrent.futures
 import json
 import subprocess
 
@@ -68,6 +77,9 @@ ASSUMPTIONS = [
     "Noto Naskh Arabic under languages nobody has heard of; scripts / languages nobody has heard of fall back to DFLT / the "
     "default language system, as OpenType says",
     "scopes: the subject is a pair of ReadCache objects (Coverage, ClassDef) over one buffer; fresh = new caches",
+    "var font: a synthesized TrueType font with fvar (wght, wdth), GSUB / GPOS with one Script table per script (latn, cyrl, "
+    "grek, arab), GDEF 1.3 with an item variation store of four regions; tuples are passed as normalised coordinates; "
+    "a shaping call that returns Err((error, infos)) is a call like any other: error and infos are both part of the value",
 ]
 
 
@@ -99,20 +111,28 @@ def run(ctx):
     defect_pred = {}
     defect_states = 0
     defect_generated = 0
-    for mode, want in (("u16", ("lazy.failedLoad", "readCache.position")),
-                       ("u8", ("readCache.position", "lookupCache.index")),
-                       ("rel", ("readCache.position",)),
-                       ("img", ("images.filter",)),
-                       ("cap", ("lookups.capacity",))):
+    modes = (("u16", ("lazy.failedLoad", "readCache.position")),
+             ("u8", ("readCache.position", "lookupCache.index")),
+             ("rel", ("readCache.position",)),
+             ("img", ("images.filter",)),
+             ("cap", ("lookups.capacity",)),
+             ("var", ("scratch.failedCall", "gdef.regionScalar")))
+
+    def defect_run(mode):
         cnt = {}
 
-        def dsink(tag, payload, cnt=cnt):
+        def dsink(tag, payload):
             if tag == "CASE":
                 for f in json.loads(payload)["fan"]:
                     for c in f["causes"]:
                         cnt[c] = cnt.get(c, 0) + 1
-        r = vlib.run_tlc(ctx, "MC_FontCache", "MC_FontCache_defect_%s.cfg" % mode, "mc_defect_" + mode, workers=4,
+        r = vlib.run_tlc(ctx, "MC_FontCache", "MC_FontCache_defect_%s.cfg" % mode, "mc_defect_" + mode, workers=2,
                          timeout=600, sink=dsink)
+        return r, cnt
+    # the six small runs three at a time, two workers each (6 cores in all)
+    with concurrent.futures.ThreadPoolExecutor(max_workers=3) as pool:
+        results = list(pool.map(defect_run, [m for m, _ in modes]))
+    for (mode, want), (r, cnt) in zip(modes, results):
         defect_states += r.distinct
         defect_generated += r.generated
         for c in want:
@@ -124,13 +144,15 @@ def run(ctx):
     gen_trace = ctx.path("gen_trace.ndjson")
     rep = vlib.run_harness(binp, ["replay", cases_path, gen_trace], timeout=3000)
     rec_trace = ctx.path("rec_trace.ndjson")
-    rec = vlib.run_harness(binp, ["record", ctx.seed, 150 if ctx.quick else 2500, 40 if ctx.quick else 80,
+    rec = vlib.run_harness(binp, ["record", ctx.seed, 180 if ctx.quick else 3000, 40 if ctx.quick else 80,
                                   300 if ctx.quick else 3000, rec_trace], timeout=3000)
     selfchecks = rep.pop("collide_selfcheck", []) + rec.pop("collide_selfcheck", [])
     img_self = rep.pop("img_selfcheck", []) + rec.pop("img_selfcheck", [])
     img_fresh = rep.pop("img_fresh_results", []) + rec.pop("img_fresh_results", [])
     fill_self = rep.pop("fill_selfcheck", [])
     fill_fresh = rep.pop("fill_fresh_results", [])
+    var_self = rep.pop("var_selfcheck", []) + rec.pop("var_selfcheck", [])
+    var_fresh = rep.pop("var_fresh_results", []) + rec.pop("var_fresh_results", [])
     facts = rep.get("input_facts", {})
     ctx.note("replay: %s" % json.dumps(rep, sort_keys=True))
     ctx.note("record: %s" % json.dumps(rec, sort_keys=True))
@@ -164,6 +186,18 @@ def run(ctx):
     for sc in fill_fresh:
         if sc["distinct_results"] != sc["feature_sets"]:
             deferred.append("fill font: the features do not give pairwise different results: %s" % json.dumps(sc))
+    if len({x["font"] for x in var_self}) < 3 or not any(x["feature_variations"] for x in var_self) or not any(x["damaged"] for x in var_self):
+        raise vlib.ToolError("var fonts missing: %s" % json.dumps(var_self))
+    for sc in var_self:
+        if (not sc["layout_confirmed"] or sc["facts_confirmed"] < 20 or not sc["has_fvar"] or not sc["has_gdef"] or sc["delta_rows"] < 2
+                or sc["distinct_adjustment_vectors_over_tuples"] < 4 or len(sc["scripts_whose_rvrn_fails"]) < 2
+                or len(sc["scripts_whose_rvrn_substitutes"]) < 2 or not sc["fvt_matches_condition"]):
+            raise vlib.ToolError("var font does not have the layout the model dictates: %s" % json.dumps(sc))
+    for sc in var_fresh:
+        if not (sc["one_positioning_per_vector"] and sc["distinct_positionings"] == sc["expected_distinct_positionings"]
+                and sc["feature_variations_effective"] and sc["failing_rvrn_reports_error"]
+                and sc["failing_main_stage_reports_error"] and sc["rvrn_and_frac_effective"] and sc["arabic_forms_depend_on_rvrn"]):
+            deferred.append("var font: shaping on a fresh font does not depend on tuple / rvrn / broken lookups as the layout says: %s" % json.dumps(sc))
     # vacuity from inputs: the histories that can expose the classes were generated and executed
     fk = facts.get("fill_distinct_keys_before_probe", {})
     need = 100
@@ -173,13 +207,17 @@ def run(ctx):
             or facts.get("fill_frac_probes_on_new_key_after_100_keys", 0) == 0
             or sorted(facts.get("scopes_routes_in_paths", [])) != ["nested", "offset", "offset_length", "read_scope"]
             or min(rec.get("fill_random_distinct_arguments", {"-": 0}).values()) < need
-            or rec.get("fill_random_fraction_calls", 0) == 0):
+            or rec.get("fill_random_fraction_calls", 0) == 0
+            or facts.get("var_failed_rvrn_then_substituting_rvrn", 0) == 0 or facts.get("var_failed_main_stage_then_shape", 0) == 0
+            or facts.get("var_two_tuples_with_different_adjustments", 0) == 0
+            or rec.get("input_facts", {}).get("var_failed_rvrn_then_substituting_rvrn", 0) == 0
+            or rec.get("input_facts", {}).get("var_two_tuples_with_different_adjustments", 0) == 0):
         raise vlib.ToolError("vacuous run: image-filter, cache-filling or scope-route histories missing: %s / %s"
                              % (json.dumps(facts), json.dumps(rec.get("fill_random_distinct_arguments"))))
     hb = rep.get("histories_by_family", {})
     rhb = rec.get("histories_by_family", {})
-    if (any(hb.get(f, 0) == 0 for f in ("dmg", "collide", "img", "fill", "scopes"))
-            or any(rhb.get(f, 0) == 0 for f in ("dmg", "collide", "img", "scopes", "fill-random"))):
+    if (any(hb.get(f, 0) == 0 for f in ("dmg", "collide", "img", "fill", "scopes", "var"))
+            or any(rhb.get(f, 0) == 0 for f in ("dmg", "collide", "img", "scopes", "fill-random", "var"))):
         raise vlib.ToolError("vacuous run: a family of histories was not executed: %s / %s" % (json.dumps(hb), json.dumps(rhb)))
     if (rep.get("damaged_probes_reporting_the_error", 0) == 0 or rep.get("damaged_variants", 0) < 20
             or rec.get("damaged_calls_reporting_the_error", 0) == 0):
@@ -233,7 +271,11 @@ def run(ctx):
         k = 10 ** 8 + 10
         for tag, pick in (("selftest-5", lambda c: c["font"]["fam"] == "img" and len(c["path"]) >= 3 and c["path"][-1]["op"] == "SetFilter"),
                           ("selftest-6", lambda c: c["font"]["fam"] == "fill" and c["font"]["sub"] == "keys" and len(c["path"]) >= 100),
-                          ("selftest-7", lambda c: c["font"]["fam"] == "scopes" and len(c["path"]) >= 1)):
+                          ("selftest-7", lambda c: c["font"]["fam"] == "scopes" and len(c["path"]) >= 1),
+                          # (8) a tuple-shaping call that differs after a call that failed half-way; (9) positioning under
+                          # one tuple that differs after positioning under another
+                          ("selftest-8", lambda c: c["font"]["fam"] == "var" and c["font"]["sub"] == "" and len(c["path"]) == 1 and c["path"][0].get("script") == "s2" and c["path"][0].get("tuple") != "none"),
+                          ("selftest-9", lambda c: c["font"]["fam"] == "var" and c["font"]["sub"] == "" and len(c["path"]) == 1 and c["path"][0].get("script") == "s1" and c["path"][0].get("tuple") == "tA")):
             cs = [c for c in cases if pick(c)]
             if not cs:
                 raise vlib.ToolError("no case generated for the planted event %s" % tag)
@@ -242,7 +284,11 @@ def run(ctx):
             for pc in c["path"]:
                 k += 1
                 f.write(json.dumps({"i": k, "case": tag, "ev": "Call", "a": {"call": pc, "probe": False}, "o": {"differs": False}}) + "\n")
-            probe = [x["call"] for x in c["fan"] if x["call"]["op"] in ("Image", "ReadCached") or x["call"].get("frac")][0]
+            if tag in ("selftest-8", "selftest-9"):
+                probe = [x["call"] for x in c["fan"] if x["call"]["op"] == "Shape" and x["call"]["script"] == "s1" and x["call"]["tuple"] == "tB"
+                         and not x["call"]["custom"] and x["call"]["kern"] and x["call"]["frac"]][0]
+            else:
+                probe = [x["call"] for x in c["fan"] if x["call"]["op"] in ("Image", "ReadCached") or x["call"].get("frac")][0]
             k += 1
             f.write(json.dumps({"i": k, "case": tag, "ev": "Call", "a": {"call": probe, "probe": True}, "o": {"differs": True}}) + "\n")
             k += 1
@@ -251,7 +297,7 @@ def run(ctx):
                                             parts=8 if ctx.quick else 14, other_tags=other, timeout=3000)
     ctx.note("judge: %d events, %d explained impurities, %d unexplained" % (total, len(other["IMPURE"]), len(mism)))
     planted = {m["case"] for m in mism if m["case"].startswith("selftest")}
-    if planted != {"selftest-%d" % n for n in range(1, 8)}:
+    if planted != {"selftest-%d" % n for n in range(1, 10)}:
         raise vlib.ToolError("binding self-check failed: planted events flagged = %s" % sorted(planted))
     violations = []
     for m in other["IMPURE"]:
@@ -297,6 +343,13 @@ def run(ctx):
         "fill_random_distinct_arguments": rec.get("fill_random_distinct_arguments"),
         "fill_random_fraction_calls": rec.get("fill_random_fraction_calls"),
         "scope_route_histories_executed": facts.get("scopes_histories", 0),
+        "var_histories_executed": facts.get("var_histories", 0),
+        "var_histories_failed_rvrn_then_substituting_rvrn": facts.get("var_failed_rvrn_then_substituting_rvrn", 0),
+        "var_histories_failed_main_stage_then_shape": facts.get("var_failed_main_stage_then_shape", 0),
+        "var_histories_two_tuples_with_different_adjustments": facts.get("var_two_tuples_with_different_adjustments", 0),
+        "var_random_input_facts": {k: v for k, v in rec.get("input_facts", {}).items() if k.startswith("var_")},
+        "var_font_selfchecks": var_self[:3],
+        "var_fresh_results": var_fresh[:3],
         "deferred_selfchecks_failed": deferred,
         "predicted_impure_state_call_pairs": n_pred[0],
         "probes_executed": rep["probes"],
@@ -320,7 +373,7 @@ def run(ctx):
         "explained_impurities": len(other["IMPURE"]),
         "pure_operation_groups_repeated": len(groups),
         "events_judged": total,
-        "binding_selfcheck": "unexplained differences (intact, damaged-table, collide, img, fill and scopes subjects) and unequal digests rejected",
+        "binding_selfcheck": "unexplained differences (intact, damaged-table, collide, img, fill, scopes and var subjects) and unequal digests rejected",
         "exhaustive": True,
         "explanation": "exhaustive over histories of the cache model (%s); random histories and repeated pure operations sampled" % cfg,
     }
